@@ -8,7 +8,7 @@ RULE = ("Seeded plans: continuous-control routine (DDPG, TD3, TD3+LAP, TD7, MR.Q
         "(symmetric, asymmetric, 1e-3, 1e3, per-dimension different) x exploration noise {0, 0.1, 0.2, 2.0} x noise_clip {0, 0.3, 0.5, 5} x "
         "policies initialised with x30 weights (tanh saturates) x scripted environment. The env checks every received action; the target "
         "critic's probe input yields the smoothed target actions; the PETS reward-model probe yields every CEM candidate. "
-        "Distinct = distinct (adapter, configuration vector, bounds, fault kinds).")
+        "Additional plans: PETS with the reward optimum on an action bound (box excluding 0), a single elite and one CEM iteration per MPC call. The target-action monitor (C10.b/c) covers TD3, TD3+LAP and TD7. " "Distinct = distinct (adapter, configuration vector, bounds, fault kinds).")
 REAL = ["train_* routines", "sample_actions / sample_target_actions", "DeterministicTanhPolicy", "cross_entropy_method (inside PETS)"]
 STUB = ["environment (SimEnv, checks bounds)", "reward model (probe)", "sampler (recording)"]
 ASSUMPTIONS = ["tolerance 1 ulp of max|bound| for policy-driven actions, 0 for sampled (warm-up) actions",
